@@ -28,8 +28,8 @@ def W.bytes : W → Nat
 /-- `get_entries_num()` -/
 def entriesNum (w : W) (b : SecBuf) : BitVec 64 :=
   match w with
-  | .w4 => arr32_entries_num b.size
-  | .w8 => arr64_entries_num b.size
+  | .w4 => arr32_entries_num (array_section_size := b.size)
+  | .w8 => arr64_entries_num (array_section_size := b.size)
 
 /-- `get_entry(index, address)` on the section state after `get_data()`;
     `none` = returns false -/
